@@ -29,7 +29,11 @@ R = Registry(
         "decoded by the inverse pair; every persistent id is written under a positive isinstance test of the pickled "
         "object and returned, every reader branch is an equality test on the tag and returns the resolved object; "
         "every literal key written by a __getstate__ is looked at by the __setstate__ of the same class (or the state "
-        "is handed over as a whole), and every __setstate__ uses its state parameter."
+        "is handed over as a whole), and every __setstate__ uses its state parameter; a value that __setstate__ installs "
+        "unchanged as attribute A was written by __getstate__ from the whole of self.A (not from another plain attribute, "
+        "not from a content-filtered comprehension/filter()/loop or a slice of it; type-only filters are by design); every "
+        "_for_freeze() of the ResultMetaData family hands the constructor of the frozen metadata class, from the state of "
+        "the metadata being frozen, every parameter that flows into that class's key-lookup state."
     ),
     not_decided="equality of the unpickled objects, pickle protocol specifics, user-defined classes.",
 )
@@ -1133,6 +1137,440 @@ def r7(ctx):
                   f"{len(allk)} written key(s) all consumed", s.loc)
 
 
+# ------------------------------------------------------------------------------------ C51-R8
+# key-wise mirror of __getstate__/__setstate__: what is pickled under key k and installed again as the WHOLE of
+# attribute A must be the whole of attribute A.
+
+def _recv(fn):
+    a = fn.args.posonlyargs + fn.args.args
+    return a[0].arg if a else None
+
+
+def _mentions(e, name):
+    return any(isinstance(x, ast.Name) and x.id == name for x in ast.walk(e))
+
+
+def _written_values(ctx, cls, g):
+    """{literal key: [(value expression, function node it is written in)]} of a __getstate__: dict displays and
+    `d["k"] = v` stores (of the method itself and of a `super().__getstate__()` it extends are not followed)"""
+    out = {}
+    for n in walk_local(g.node):
+        if isinstance(n, ast.Dict):
+            for k, v in zip(n.keys, n.values):
+                if k is not None and const_str(k) is not None:
+                    out.setdefault(const_str(k), []).append((v, g.node))
+        elif isinstance(n, ast.Assign):
+            for t in n.targets:
+                if isinstance(t, ast.Subscript) and const_str(t.slice) is not None and isinstance(t.value, ast.Name):
+                    out.setdefault(const_str(t.slice), []).append((n.value, g.node))
+    return out
+
+
+def _resolve_written(ctx, cls, e, fn, depth=3):
+    """follow a written value through once-bound locals and zero-argument helper methods of the object
+    (`"k": self._pending()` -> the expression that helper returns); -> (expression, function node)"""
+    from ._helpers_rob_h1 import resolve_local
+    while depth > 0:
+        depth -= 1
+        e2 = resolve_local(fn, e)
+        if e2 is not e:
+            e = e2
+            continue
+        me = _recv(fn)
+        if isinstance(e, ast.Call) and not e.args and not e.keywords and isinstance(e.func, ast.Attribute) \
+                and isinstance(e.func.value, ast.Name) and e.func.value.id == me and cls is not None:
+            h = ctx.index.resolve_method(cls, e.func.attr)
+            if h is not None and not h.type_only and not ({"property", "staticmethod", "classmethod"} & set(h.decorators)) \
+                    and _recv(h.node) is not None and not any(e.func.attr in k.methods for k in ctx.index.subclasses(cls)):
+                rets = [r for r in walk_local(h.node) if isinstance(r, ast.Return) and r.value is not None]
+                if len(rets) == 1:
+                    ctx.functions_analysed.add(h.key)
+                    e, fn = rets[0].value, h.node
+                    continue
+        break
+    return e, fn
+
+
+def _state_read_key(e, sp):
+    """k when e is `state["k"]` or `state.get("k"[, default])`"""
+    if isinstance(e, ast.Subscript) and _is_name(e.value, sp):
+        return const_str(e.slice)
+    if isinstance(e, ast.Call) and call_name(e) == f"{sp}.get" and e.args:
+        return const_str(e.args[0])
+    return None
+
+
+def _plain_restores(s):
+    """[(key, attribute)]: statements of a __setstate__ that install the pickled value under `key` unchanged as attribute
+    `attribute` of the object -- `self.A = state[k]`, `self.A = x = state.get(k, d)`, `object.__setattr__(self, "A",
+    state[k])`, or the same through a once-bound local"""
+    from ._helpers_rob_h1 import resolve_local
+    fn = s.node
+    me, sp = _recv(fn), _state_param(fn)
+    out = []
+    if me is None or sp is None:
+        return out
+    for n in walk_local(fn):
+        if isinstance(n, ast.Assign):
+            k = _state_read_key(resolve_local(fn, n.value), sp)
+            if k is None:
+                continue
+            for t in n.targets:
+                if isinstance(t, ast.Attribute) and _is_name(t.value, me):
+                    out.append((k, t.attr))
+        elif isinstance(n, ast.Call) and call_name(n) in ("setattr", "object.__setattr__") and len(n.args) == 3 \
+                and _is_name(n.args[0], me) and const_str(n.args[1]) is not None:
+            k = _state_read_key(resolve_local(fn, n.args[2]), sp)
+            if k is not None:
+                out.append((k, const_str(n.args[1])))
+    return out
+
+
+def _type_test_only(conds):
+    """the filter only looks at the TYPE of the element (`isinstance(key, (str, int))`): it drops what the pickle cannot
+    represent, by design -- not a part of the state chosen by its content"""
+    def ok(e):
+        if isinstance(e, ast.UnaryOp) and isinstance(e.op, ast.Not):
+            return ok(e.operand)
+        if isinstance(e, ast.BoolOp):
+            return all(ok(v) for v in e.values)
+        return isinstance(e, ast.Call) and call_name(e) in ("isinstance", "callable")
+    return bool(conds) and all(ok(c) for c in conds)
+
+
+def _source_attr(e, me):
+    """the attributes `me.X` an iterated expression reads (`self.X`, `self.X.items()`, `list(self.X)`, `sorted(self.X)`)"""
+    return {x.attr for x in ast.walk(e) if isinstance(x, ast.Attribute) and _is_name(x.value, me)}
+
+
+def _lossy_projection(ctx, f_node, e, fn, attr):
+    """why `e` (written in function node fn) holds only PART of self.<attr>, or None: a comprehension / filter() / loop
+    over the attribute with a content condition, or a slice of it"""
+    me = _recv(fn)
+    for x in ast.walk(e):
+        if isinstance(x, (ast.ListComp, ast.SetComp, ast.DictComp, ast.GeneratorExp)):
+            for gen in x.generators:
+                if attr in _source_attr(gen.iter, me) and gen.ifs and not _type_test_only(gen.ifs):
+                    return (f"only the entries of {me}.{attr} with `{' and '.join(unparse(c) for c in gen.ifs)}` are pickled")
+        elif isinstance(x, ast.Call) and call_name(x) in ("filter", "itertools.filterfalse", "filterfalse") and len(x.args) == 2 \
+                and attr in _source_attr(x.args[1], me):
+            return f"only the entries of {me}.{attr} selected by `{unparse(x)[:70]}` are pickled"
+        elif isinstance(x, ast.Subscript) and isinstance(x.slice, ast.Slice) and attr in _source_attr(x.value, me) \
+                and not (x.slice.lower is None and x.slice.upper is None and x.slice.step is None):
+            return f"only the slice `{unparse(x)[:70]}` of {me}.{attr} is pickled"
+    return None
+
+
+def _loop_built_projection(ctx, f, name, attr):
+    """`x = {}` + `for .. in self.<attr>..: if C: x[..] = ..` is the comprehension with filter C"""
+    fn = f.node
+    me = _recv(fn)
+    g = ctx.cfg(f)
+    for loop in walk_local(fn):
+        if not isinstance(loop, (ast.For, ast.AsyncFor)) or attr not in _source_attr(loop.iter, me):
+            continue
+        heads = g.nodes_for(loop)
+        base = set()
+        for h in heads:
+            base |= {(unparse(t), p) for t, p in g.edge_guards(h)}
+        for st in ast.walk(loop):
+            fills = False
+            if isinstance(st, ast.Assign) and any(isinstance(t, ast.Subscript) and _is_name(t.value, name) for t in st.targets):
+                fills = True
+            elif isinstance(st, ast.Expr) and isinstance(st.value, ast.Call) and isinstance(st.value.func, ast.Attribute) \
+                    and _is_name(st.value.func.value, name) and st.value.func.attr in ("append", "add", "update", "setdefault", "extend", "__setitem__"):
+                fills = True
+            elif isinstance(st, ast.Expr) and isinstance(st.value, ast.Call) and isinstance(st.value.func, ast.Attribute) \
+                    and isinstance(st.value.func.value, ast.Subscript) and _is_name(st.value.func.value.value, name):
+                fills = True        # x[k].append(v)
+            if not fills:
+                continue
+            for i in g.nodes_for(st):
+                extra = [(t, p) for t, p in g.edge_guards(i) if (unparse(t), p) not in base
+                         and not (isinstance(loop, ast.For) and t is getattr(loop, "test", None))]
+                conds = [t for t, p in extra]
+                if conds and not _type_test_only(conds):
+                    def show(t, p):
+                        if not p and isinstance(t, ast.UnaryOp) and isinstance(t.op, ast.Not):
+                            return unparse(t.operand)
+                        return ("" if p else "not ") + unparse(t)
+                    return (f"only the entries of {me}.{attr} with `" + " and ".join(show(t, p) for t, p in extra) + "` are pickled")
+    return None
+
+
+@R.rule("C51-R8", floor=20, template="T-TABLE",
+        desc="key-wise mirror of every __getstate__/__setstate__ pair with literal keys: a value that __setstate__ installs "
+             "unchanged as attribute A (`self.A = state[k]`) was written by __getstate__ from the whole of that attribute: "
+             "not from a different plain attribute, and not from a content-filtered comprehension / filter() / loop or a "
+             "slice of self.A (a filter on the element's type only -- what the pickle cannot represent -- is by design)")
+def r8(ctx):
+    for cls in sorted(ctx.index.all_classes(), key=lambda c: c.key):
+        g, s = cls.methods.get("__getstate__"), cls.methods.get("__setstate__")
+        if g is None or s is None or g.type_only or s.type_only:
+            continue
+        written = _written_values(ctx, cls, g)
+        me_w = _recv(g.node)
+        if not written or me_w is None:
+            continue
+        ctx.functions_analysed.update((g.key, s.key))
+        for k, attr in sorted(set(_plain_restores(s))):
+            if k not in written:
+                continue        # a key the writer does not write literally: C51-R1's business
+            key = f"{cls.key}:{k}->{attr}"
+            probs = []
+            for v, fn in written[k]:
+                e, efn = _resolve_written(ctx, cls, v, fn)
+                me = _recv(efn)
+                # (a) written from another plain instance attribute
+                if isinstance(e, ast.Attribute) and _is_name(e.value, me) and e.attr != attr \
+                        and ctx.index.resolve_method(cls, e.attr) is None and ctx.index.resolve_method(cls, attr) is None \
+                        and not any(e.attr in kk.nested for kk in ctx.index.mro(cls)):
+                    inst = _instance_attrs(ctx, cls)
+                    if e.attr in inst and attr in inst:
+                        probs.append(f"__getstate__ writes {me}.{e.attr} under {k!r}, __setstate__ installs it as self.{attr}: the "
+                                     f"unpickled object carries the state of a different attribute")
+                    continue
+                # (b) only a part of the attribute is written
+                why = _lossy_projection(ctx, g.node, e, efn, attr)
+                if why is None and isinstance(v, ast.Name) and efn is g.node:
+                    why = _loop_built_projection(ctx, g, v.id, attr)
+                if why is None and isinstance(e, ast.Name) and efn is g.node:
+                    why = _loop_built_projection(ctx, g, e.id, attr)
+                if why:
+                    probs.append(f"{why}, but __setstate__ installs the value as the whole of self.{attr}: the dropped entries "
+                                 f"are lost by the round trip (state differs from the original)")
+            ctx.check(not probs, key, "; ".join(probs), f"state[{k!r}] is the whole of self.{attr}", g.loc)
+
+
+# ------------------------------------------------------------------------------------ C51-R9
+# Results frozen for caching: the metadata a _for_freeze() builds must be given everything the constructor of the
+# frozen metadata class turns into its key-lookup state (what _index_for_key / _has_key consult).
+
+_RMD = "engine/result.py::ResultMetaData"
+_LOOKUP_METHODS = ("_has_key", "_index_for_key", "_metadata_for_keys", "_indexes_for_keys")
+
+
+def _lookup_attrs(ctx, cls):
+    """instance attributes that the key-lookup methods of a ResultMetaData class subscript / membership-test with a key"""
+    out = set()
+    for m in _LOOKUP_METHODS:
+        f = ctx.index.resolve_method(cls, m)
+        if f is None or f.type_only:
+            continue
+        me = _recv(f.node)
+        ctx.functions_analysed.add(f.key)
+        for n in walk_local(f.node):
+            if isinstance(n, ast.Subscript) and isinstance(n.value, ast.Attribute) and _is_name(n.value.value, me):
+                out.add(n.value.attr)
+            elif isinstance(n, ast.Compare) and len(n.ops) == 1 and isinstance(n.ops[0], (ast.In, ast.NotIn)) \
+                    and isinstance(n.comparators[0], ast.Attribute) and _is_name(n.comparators[0].value, me):
+                out.add(n.comparators[0].attr)
+    return out
+
+
+def _ctor_param_flow(ctx, init, targets):
+    """constructor parameters whose value can reach (data flow through locals, attributes, loop variables, subscript
+    keys; control flow through the tests that govern a store; through helper methods called on the object, depth 2) one
+    of the instance attributes `targets`.  Flow-insensitive on purpose: any behaviour-preserving rearrangement of the
+    constructor has the same answer."""
+    cls = init.cls
+    params = [a.arg for a in init.node.args.posonlyargs + init.node.args.args + init.node.args.kwonlyargs][1:]
+    edges = {}      # variable -> set of variables it is computed from
+
+    def add(t, srcs):
+        if t is not None:
+            edges.setdefault(t, set()).update(srcs)
+
+    def scan(f, prefix, depth):
+        fn = f.node
+        me = _recv(fn)
+        pm = f.module.parents()
+        ctx.functions_analysed.add(f.key)
+
+        def helper(c):
+            if depth < 2 and isinstance(c, ast.Call) and isinstance(c.func, ast.Attribute) and _is_name(c.func.value, me) and cls is not None:
+                h = ctx.index.resolve_method(cls, c.func.attr)
+                if h is not None and not h.type_only and h.node is not fn and _recv(h.node) is not None \
+                        and not ({"property", "staticmethod", "classmethod"} & set(h.decorators)):
+                    return h
+            return None
+
+        def var(e):
+            """the variable a store target / receiver denotes: local name or `self.A`"""
+            while isinstance(e, (ast.Subscript, ast.Starred)):
+                e = e.value
+            if isinstance(e, ast.Name):
+                return None if e.id == me else prefix + e.id
+            if isinstance(e, ast.Attribute) and _is_name(e.value, me):
+                return f"self.{e.attr}"
+            if isinstance(e, ast.Attribute):
+                return var(e.value)
+            return None
+
+        def reads(e):
+            out = set()
+            for x in ast.walk(e):
+                if isinstance(x, ast.Name) and isinstance(x.ctx, ast.Load) and x.id != me:
+                    out.add(prefix + x.id)
+                elif isinstance(x, ast.Attribute) and _is_name(x.value, me):
+                    out.add(f"self.{x.attr}")
+                elif helper(x) is not None:
+                    out.add(f"{depth + 1}:{x.func.attr}:<return>")
+            return out
+
+        def control(n):
+            out = set()
+            for t, _ in lexical_guards(pm, n, stop=fn):
+                out |= reads(t)
+            cur = pm.get(n)
+            while cur is not None and cur is not fn:
+                if isinstance(cur, (ast.For, ast.AsyncFor)):
+                    out |= reads(cur.iter)
+                cur = pm.get(cur)
+            return out | {prefix + "<called-under>"}
+
+        def targets_of(t):
+            if isinstance(t, (ast.Tuple, ast.List)):
+                for x in t.elts:
+                    yield from targets_of(x)
+            else:
+                yield t
+        for n in walk_local(fn):
+            if isinstance(n, ast.Assign):
+                for t0 in n.targets:
+                    for t in targets_of(t0):
+                        extra = reads(t.slice) if isinstance(t, ast.Subscript) else set()
+                        add(var(t), reads(n.value) | extra | control(n))
+            elif isinstance(n, ast.AnnAssign) and n.value is not None:
+                add(var(n.target), reads(n.value) | control(n))
+            elif isinstance(n, ast.AugAssign):
+                add(var(n.target), reads(n.value) | control(n))
+            elif isinstance(n, (ast.For, ast.AsyncFor)):
+                for t in targets_of(n.target):
+                    add(var(t), reads(n.iter) | control(n))
+            elif isinstance(n, ast.NamedExpr):
+                add(var(n.target), reads(n.value))
+            elif isinstance(n, ast.Return) and n.value is not None:
+                add(prefix + "<return>", reads(n.value) | control(n))
+            elif isinstance(n, ast.Call):
+                h = helper(n)
+                if h is not None:
+                    hp = f"{depth + 1}:{n.func.attr}:"
+                    hparams = [a.arg for a in h.node.args.posonlyargs + h.node.args.args][1:]
+                    stmt = n
+                    while stmt in pm and not isinstance(stmt, ast.stmt):
+                        stmt = pm[stmt]
+                    cdeps = control(stmt)
+                    add(hp + "<called-under>", cdeps)
+                    for prm, a in zip(hparams, n.args):
+                        add(hp + prm, reads(a) | cdeps)
+                    for kw in n.keywords:
+                        if kw.arg:
+                            add(hp + kw.arg, reads(kw.value) | cdeps)
+                    if hp not in scanned:
+                        scanned.add(hp)
+                        scan(h, hp, depth + 1)
+                elif isinstance(n.func, ast.Attribute) and isinstance(pm.get(n), ast.Expr):
+                    # x.update(..) / x.append(..) / self.A.setdefault(..): the receiver takes in the arguments
+                    srcs = set()
+                    for a in list(n.args) + [k.value for k in n.keywords]:
+                        srcs |= reads(a)
+                    add(var(n.func.value), srcs | control(pm[n]))
+    scanned = set()
+    scan(init, "0:", 0)
+    want = {f"self.{a}" for a in targets}
+    out = set()
+    for p in params:
+        seen, todo = set(), ["0:" + p]
+        while todo:     # forward reachability: p -> variables computed from p
+            v = todo.pop()
+            if v in seen:
+                continue
+            seen.add(v)
+            todo.extend(t for t, srcs in edges.items() if v in srcs)
+        if seen & want:
+            out.add(p)
+    return params, out
+
+
+@R.rule("C51-R9", floor=3, template="T-FLOW",
+        desc="results frozen for caching: every _for_freeze() of the ResultMetaData family returns a metadata object whose "
+             "constructor is given -- from the state of the metadata being frozen -- every parameter that flows into the "
+             "key-lookup state of the frozen class (the attributes _index_for_key/_has_key consult: keys, per-key "
+             "objects, the names that must raise 'ambiguous')")
+def r9(ctx):
+    from ._helpers_rob_h1 import resolve_local
+    from ..index import ClassInfo
+    base = ctx.index.cls(_RMD)
+    fam = [base] + [k for k in ctx.index.subclasses(base)]
+    n_sites = 0
+    for cls in sorted(fam, key=lambda c: c.key):
+        f0 = cls.methods.get("_for_freeze")
+        if f0 is None or f0.type_only:
+            continue
+        f = nform(ctx, f0)
+        me = _recv(f.node)
+        g = ctx.cfg(f)
+        rets = [n for n in g.nodes if n.kind == "stmt" and isinstance(n.stmt, ast.Return) and not n.copy]
+        if not rets:
+            continue            # abstract: raises NotImplementedError
+        ctx.functions_analysed.add(f0.key)
+        for rn in rets:
+            v = rn.stmt.value
+            v = resolve_local(f.node, v) if v is not None else None
+            if v is not None and _is_name(v, me):
+                ctx.ok(f"{f0.key}:returns-self", "the metadata is its own frozen form", nontrivial=False)
+                continue
+            k = ctx.index.resolve(f0.module, call_name(v)) if isinstance(v, ast.Call) and call_name(v) and re.fullmatch(r"[\w.]+", call_name(v)) else None
+            if not isinstance(k, ClassInfo) or base not in ctx.index.mro(k):
+                ctx.error(f"{f0.key}: frozen metadata `{unparse(v)[:60] if v is not None else None}` is not the construction of a ResultMetaData class")
+                continue
+            init = ctx.index.resolve_method(k, "__init__")
+            ctx.require(init is not None, f"{k.key}: no __init__")
+            look = _lookup_attrs(ctx, k)
+            ctx.require(look, f"{k.key}: key-lookup attributes not recognised")
+            ctx.functions_analysed.add(init.key)
+            params, needed = _ctor_param_flow(ctx, init, look)
+            ctx.require(needed, f"{init.key}: no constructor parameter reaches the lookup state {sorted(look)}")
+            if any(isinstance(a, ast.Starred) for a in v.args) or any(kw.arg is None for kw in v.keywords):
+                ctx.error(f"{f0.key}: star-arguments in `{unparse(v)[:60]}` not understood")
+                continue
+            npos = len(init.node.args.posonlyargs + init.node.args.args) - 1
+            bound = {p: a for p, a in zip(params[:npos], v.args)}
+            bound.update({kw.arg: kw.value for kw in v.keywords})
+            n_sites += 1
+            for p in sorted(needed):
+                key = f"{f0.key}:supplies[{k.name}.{p}]"
+                a = bound.get(p)
+                if a is None:
+                    ctx.violation(key, f"the frozen metadata is built by `{k.name}(...)` without `{p}`, which {k.name}.__init__ turns into its "
+                                       f"key-lookup state ({', '.join('self.' + x for x in sorted(look))}): rows of the frozen (cached / "
+                                       f"re-frozen / pickled) result resolve keys differently from rows of the result that was frozen", f0.loc)
+                    continue
+                # the argument must come from the metadata being frozen
+                vals = [st.value for st in contributing_stmts(f.node, ast.Expr(value=a)) if getattr(st, "value", None) is not None]
+                from_self = any(_mentions(x, me) for x in vals) or _loop_fed_from(f.node, vals, me)
+                ctx.check(from_self, key, f"`{p}={unparse(a)[:60]}` does not come from the state of the metadata being frozen",
+                          f"{p} <- {unparse(a)[:50]}", f0.loc)
+    ctx.require(n_sites >= 1, "no _for_freeze() constructs a ResultMetaData")
+
+
+def _loop_fed_from(fnode, a, me):
+    """a local in the expressions `a` is a container filled inside a loop/branch that reads the receiver (`amb = set(); for rec in
+    self._keymap.values(): amb.add(..)`)"""
+    names = {x.id for v in a for x in ast.walk(v) if isinstance(x, ast.Name)}
+    for n in walk_local(fnode):
+        if isinstance(n, (ast.For, ast.AsyncFor)) and _mentions(n.iter, me):
+            for st in ast.walk(n):
+                if isinstance(st, ast.Call) and isinstance(st.func, ast.Attribute) and isinstance(st.func.value, ast.Name) \
+                        and st.func.value.id in names:
+                    return True
+                if isinstance(st, ast.Assign) and any(isinstance(t, ast.Subscript) and isinstance(t.value, ast.Name) and t.value.id in names
+                                                      for t in st.targets):
+                    return True
+    return False
+
+
 # ------------------------------------------------------------------------------------ self-test
 R.mutant("metadata-getstate-drops-key", "sql/schema.py",
          sub("            \"fk_memos\": self._fk_memos,\n", ""), "C51-R1")
@@ -1351,3 +1789,106 @@ R.mutant("rob-deserializer-decode-helper-skips-b64decode", "ext/serializer.py",
                               "self._load_class({})"), "C51-R5")
 R.mutant("rob-serializer-percent-format-extra-field", "ext/serializer.py",
          sub(_TB_OLD, _tb_new().replace("\"table:%s\" % (obj.key,)", "\"table:%s:%s\" % (obj.schema, obj.key)")), "C51-R2")
+
+# ---- round-2 seeds (str2-v)
+# --- C51-R8 (seed C51_3: MetaData.__getstate__ pickles only the "unresolved" FK memos) and the family around it
+_FKM = "            \"fk_memos\": self._fk_memos,\n"
+_MD_GS_HEAD = "    def __getstate__(self) -> Dict[str, Any]:\n        return {\n            \"tables\": self.tables,\n"
+_CUR_KEYMAP_OLD = ("        return {\n            \"_keymap\": {\n                key: (\n                    rec[MD_INDEX],\n"
+                   "                    rec[MD_RESULT_MAP_INDEX],\n                    [],\n                    key,\n"
+                   "                    rec[MD_RENDERED_NAME],\n                    None,\n                    None,\n                )\n"
+                   "                for key, rec in self._keymap.items()\n                if isinstance(key, (str, int))\n            },\n")
+R.mutant("seed2-metadata-getstate-prunes-resolved-fk-memos", "sql/schema.py",
+         sub(_FKM, "            \"fk_memos\": collections.defaultdict(\n                list,\n                {\n"
+                   "                    fk_key: fks\n                    for fk_key, fks in self._fk_memos.items()\n"
+                   "                    if fk_key[0] not in self.tables\n                },\n            ),\n"), "C51-R8")
+R.mutant("metadata-getstate-fk-memos-filtered-in-helper", "sql/schema.py",
+         chain(sub(_FKM, "            \"fk_memos\": self._pending_fk_memos(),\n"),
+               sub("    def __getstate__(self) -> Dict[str, Any]:\n        return {\n            \"tables\": self.tables,\n",
+                   "    def _pending_fk_memos(self) -> Any:\n        pending = collections.defaultdict(list)\n"
+                   "        pending.update(\n            (k, v) for k, v in self._fk_memos.items() if k[0] not in self.tables\n        )\n"
+                   "        return collections.defaultdict(list, {k: v for k, v in self._fk_memos.items() if v})\n\n" + _MD_GS_HEAD)),
+         "C51-R8")
+R.mutant("metadata-getstate-fk-memos-filtered-by-loop", "sql/schema.py",
+         chain(sub(_FKM, "            \"fk_memos\": memos,\n"),
+               sub(_MD_GS_HEAD, "    def __getstate__(self) -> Dict[str, Any]:\n        memos = collections.defaultdict(list)\n"
+                                "        for fk_key, fks in self._fk_memos.items():\n            if fk_key[0] in self.tables:\n"
+                                "                continue\n            memos[fk_key] = fks\n        return {\n            \"tables\": self.tables,\n")),
+         "C51-R8")
+R.mutant("metadata-getstate-schemas-sequences-crossed", "sql/schema.py",
+         sub("            \"schemas\": self._schemas,\n            \"sequences\": self._sequences,\n",
+             "            \"schemas\": self._sequences,\n            \"sequences\": self._schemas,\n"), "C51-R8")
+R.mutant("cursor-metadata-getstate-drops-ambiguous-records", "engine/cursor.py",
+         sub("                if isinstance(key, (str, int))\n            },\n",
+             "                if isinstance(key, (str, int)) and rec[MD_INDEX] is not None\n            },\n"), "C51-R8")
+R.mutant("cursor-metadata-getstate-keys-sliced", "engine/cursor.py",
+         sub("            \"_keys\": self._keys,\n            \"_translated_indexes\"", "            \"_keys\": self._keys[: len(self._processors)],\n            \"_translated_indexes\""),
+         "C51-R8")
+R.mutant("benign-metadata-getstate-fk-memos-unfiltered-copy", "sql/schema.py",
+         sub(_FKM, "            \"fk_memos\": collections.defaultdict(\n                list, {k: v for k, v in self._fk_memos.items()}\n            ),\n"), None)
+R.mutant("benign-metadata-getstate-values-through-locals", "sql/schema.py",
+         chain(sub(_FKM, "            \"fk_memos\": memos,\n"),
+               sub(_MD_GS_HEAD, "    def __getstate__(self) -> Dict[str, Any]:\n        memos = self._fk_memos\n        return {\n            \"tables\": self.tables,\n")),
+         None)
+R.mutant("benign-metadata-getstate-fk-memos-from-helper", "sql/schema.py",
+         chain(sub(_FKM, "            \"fk_memos\": self._memos_for_pickle(),\n"),
+               sub(_MD_GS_HEAD, "    def _memos_for_pickle(self) -> Any:\n        return self._fk_memos\n\n" + _MD_GS_HEAD)), None)
+R.mutant("benign-cursor-metadata-getstate-type-filter-as-loop", "engine/cursor.py",
+         sub(_CUR_KEYMAP_OLD,
+             "        keymap = {}\n        for key, rec in self._keymap.items():\n            if not isinstance(key, (str, int)):\n                continue\n"
+             "            keymap[key] = (\n                rec[MD_INDEX],\n                rec[MD_RESULT_MAP_INDEX],\n                [],\n                key,\n"
+             "                rec[MD_RENDERED_NAME],\n                None,\n                None,\n            )\n"
+             "        return {\n            \"_keymap\": keymap,\n"), None)
+R.mutant("cursor-metadata-getstate-loop-drops-ambiguous-records", "engine/cursor.py",
+         sub(_CUR_KEYMAP_OLD,
+             "        keymap = {}\n        for key, rec in self._keymap.items():\n            if not isinstance(key, (str, int)):\n                continue\n"
+             "            if rec[MD_INDEX] is None:\n                continue\n"
+             "            keymap[key] = (\n                rec[MD_INDEX],\n                rec[MD_RESULT_MAP_INDEX],\n                [],\n                key,\n"
+             "                rec[MD_RENDERED_NAME],\n                None,\n                None,\n            )\n"
+             "        return {\n            \"_keymap\": keymap,\n"), "C51-R8")
+# --- C51-R9 (seed C51_4: SimpleResultMetaData._for_freeze forgets the ambiguous names) and the family around it
+_FF_SIMPLE = ("        return SimpleResultMetaData(\n            self._keys,\n            extra=[self._keymap[key][2] for key in self._keys],\n"
+              "            _create_unique_filters=create_unique_filters,\n            _ambiguous_keys=self._ambiguous_keys,\n        )\n")
+_FF_CURSOR = ("        ambiguous = {\n            rec[MD_LOOKUP_KEY]\n            for rec in self._keymap.values()\n            if rec[MD_INDEX] is None\n        }\n"
+              "        return SimpleResultMetaData(\n            self._keys,\n            extra=[self._keymap[key][MD_OBJECTS] for key in self._keys],\n"
+              "            _ambiguous_keys=frozenset(ambiguous) if ambiguous else None,\n        )\n")
+_AMB_CTOR = ("        if _ambiguous_keys:\n            for name in _ambiguous_keys.intersection(self._keymap):\n"
+             "                rec = self._keymap[name]\n                self._keymap[name] = (None,) + rec[1:]\n")
+R.mutant("seed2-simple-metadata-for-freeze-forgets-ambiguous-keys", "engine/result.py",
+         sub(_FF_SIMPLE, _FF_SIMPLE.replace("            _ambiguous_keys=self._ambiguous_keys,\n", "")), "C51-R9")
+R.mutant("cursor-metadata-for-freeze-forgets-ambiguous-keys", "engine/cursor.py",
+         sub(_FF_CURSOR, _FF_CURSOR.replace("            _ambiguous_keys=frozenset(ambiguous) if ambiguous else None,\n", "")), "C51-R9")
+R.mutant("simple-metadata-for-freeze-ambiguous-keys-constant", "engine/result.py",
+         sub(_FF_SIMPLE, _FF_SIMPLE.replace("_ambiguous_keys=self._ambiguous_keys,", "_ambiguous_keys=None,")), "C51-R9")
+R.mutant("simple-metadata-for-freeze-forgets-extra", "engine/result.py",
+         sub(_FF_SIMPLE, _FF_SIMPLE.replace("            extra=[self._keymap[key][2] for key in self._keys],\n", "")), "C51-R9")
+R.mutant("simple-metadata-ctor-helper-for-freeze-forgets-ambiguous-keys", "engine/result.py",
+         chain(sub(_AMB_CTOR, "        self._mark_ambiguous(_ambiguous_keys)\n"),
+               sub("    def _has_key(self, key: object) -> bool:\n        return key in self._keymap\n\n    def _for_freeze(self) -> ResultMetaData:\n        # TODO",
+                   "    def _mark_ambiguous(self, names: Optional[frozenset[str]]) -> None:\n        if not names:\n            return\n"
+                   "        for name in names.intersection(self._keymap):\n            rec = self._keymap[name]\n"
+                   "            self._keymap[name] = (None,) + rec[1:]\n\n"
+                   "    def _has_key(self, key: object) -> bool:\n        return key in self._keymap\n\n    def _for_freeze(self) -> ResultMetaData:\n        # TODO"),
+               sub(_FF_SIMPLE, _FF_SIMPLE.replace("            _ambiguous_keys=self._ambiguous_keys,\n", ""))), "C51-R9")
+R.mutant("benign-simple-metadata-for-freeze-positional-arguments", "engine/result.py",
+         sub(_FF_SIMPLE, "        return SimpleResultMetaData(\n            self._keys,\n            [self._keymap[key][2] for key in self._keys],\n"
+                         "            None,\n            None,\n            None,\n            create_unique_filters,\n            self._ambiguous_keys,\n        )\n"), None)
+R.mutant("benign-simple-metadata-for-freeze-locals-and-helper", "engine/result.py",
+         chain(sub(_FF_SIMPLE, "        return self._frozen_copy(create_unique_filters)\n\n"
+                               "    def _frozen_copy(self, unique_filters: Any) -> ResultMetaData:\n        ambiguous = self._ambiguous_keys\n"
+                               "        objects = [self._keymap[key][2] for key in self._keys]\n"
+                               "        frozen = SimpleResultMetaData(\n            self._keys,\n            extra=objects,\n"
+                               "            _create_unique_filters=unique_filters,\n            _ambiguous_keys=ambiguous,\n        )\n        return frozen\n")), None)
+R.mutant("benign-cursor-metadata-for-freeze-ambiguous-by-loop", "engine/cursor.py",
+         sub(_FF_CURSOR, "        ambiguous = set()\n        for rec in self._keymap.values():\n            if rec[MD_INDEX] is None:\n"
+                         "                ambiguous.add(rec[MD_LOOKUP_KEY])\n"
+                         "        names = frozenset(ambiguous) if ambiguous else None\n"
+                         "        return SimpleResultMetaData(\n            self._keys,\n            extra=[self._keymap[key][MD_OBJECTS] for key in self._keys],\n"
+                         "            _ambiguous_keys=names,\n        )\n"), None)
+R.mutant("benign-simple-metadata-ctor-ambiguous-marking-in-helper", "engine/result.py",
+         chain(sub(_AMB_CTOR, "        self._mark_ambiguous(_ambiguous_keys)\n"),
+               sub("    def _has_key(self, key: object) -> bool:\n        return key in self._keymap\n\n    def _for_freeze(self) -> ResultMetaData:\n        # TODO",
+                   "    def _mark_ambiguous(self, names: Optional[frozenset[str]]) -> None:\n        if not names:\n            return\n"
+                   "        for name in names.intersection(self._keymap):\n            rec = self._keymap[name]\n"
+                   "            self._keymap[name] = (None,) + rec[1:]\n\n"
+                   "    def _has_key(self, key: object) -> bool:\n        return key in self._keymap\n\n    def _for_freeze(self) -> ResultMetaData:\n        # TODO")), None)
